@@ -568,7 +568,7 @@ func TestC02(t *testing.T) {
 	ck := hx.Check[c02Case]{
 		Property: "C02", Part: "populations",
 		Rule:  "populations of link files for a step with threshold 1-3, each file independently of one kind (honest by key/certificate, tampered, unsigned, unauthorised key, key of another step, listed-but-undefined key, expired/foreign/non-matching/self-signed certificate, duplicate under another name with forged leading signature (key and certificate variant), multi-signature, forged key id, decoy certificate, garbage/truncated/wrong type/null parts; legacy and DSSE), intermediates in the layout / from the caller / missing; subsets of <=3 (thorough <=4) kinds enumerated completely, larger ones drawn by rapid; non-trivial = >=1 file that ground truth does not count and |M - threshold| <= 1; distinct by (threshold, kinds, wrapper, intermediate placement)",
-		Cases: hx.Pick(300, 20000),
+		Cases: hx.Pick(300, 30000),
 		Gen:   c02Gen, Run: c02Run,
 	}
 	if hx.ReplayRequested() == "" {
